@@ -283,6 +283,21 @@ def run_chunk(cases):
                         signature(out["cls"], got, out, kind),
                         inp["which"] if kind == "link" else kind, show(got, kind),
                         " or ".join(show(a, kind) for a in out["allowed"]), out["cls"], json.dumps(inp))))
+                if kind == "cmdline" and inp["zombie"]:
+                    # the same zombie, but it died inside a oneshot() block that had
+                    # already looked at it alive
+                    p.state = "S"
+                    pr = ps.Process(PID)
+                    with pr.oneshot():
+                        pr.status()
+                        pr.name()
+                        p.state = "Z"
+                        got2 = call(ps, pr.cmdline, conv_list)
+                    if canon(got2, kind) not in allowed:
+                        bad.append((i, "%s:died-inside-oneshot| cmdline() -> %s for a process that became a zombie inside the "
+                                       "oneshot() block, the specification allows %s  [input %s]" % (
+                                           signature(out["cls"], got2, out, kind), show(got2, kind),
+                                           " or ".join(show(a, kind) for a in out["allowed"]), json.dumps(inp))))
                 continue
             gots = query_exe(ps, p, inp)
             memos = {json.dumps(c["start"], sort_keys=True)}
